@@ -306,6 +306,25 @@ fn c02_extra(c: &Case, _xot: &Xot, _root: xot::Node, tt: &str, out: &mut Out, st
             }
         }
     }
+    // one byte order mark belongs to the encoding; a second one is a character in front of the document and is rejected (as
+    // parse("\u{feff}\u{feff}...") is), in UTF-8 and in UTF-16
+    if !has_decl {
+        let mut doubled: Vec<(&str, Vec<u8>)> = vec![];
+        let mut v = vec![0xEF, 0xBB, 0xBF, 0xEF, 0xBB, 0xBF];
+        v.extend_from_slice(body.as_bytes());
+        doubled.push(("utf-8", v));
+        let mut le: Vec<u8> = vec![0xFF, 0xFE, 0xFF, 0xFE];
+        for u in body.encode_utf16() { le.extend_from_slice(&u.to_le_bytes()); }
+        doubled.push(("utf-16le", le));
+        for (label, bytes) in doubled {
+            let mut x = Xot::new();
+            match guard(|| x.parse_bytes(&bytes)) {
+                Ok(Ok(_)) => out.fail(&c.id, "bytes-double-bom-accepted", &format!("parse_bytes accepts {} bytes that start with two byte order marks", label)),
+                Ok(Err(_)) => stats.bump("c02.bytes.double-bom-rejected"),
+                Err(()) => out.fail(&c.id, "parse-panic", &format!("parse_bytes of {} bytes with two byte order marks panicked", label)),
+            }
+        }
+    }
     for (label, bytes) in variants {
         let mut x = Xot::new();
         match guard(|| x.parse_bytes(&bytes)) {
